@@ -24,7 +24,7 @@ static void *thread_main(void *p) {
       a.cases = counts[(f + t->tid) % 10] / 2 + 2;
       a.seed = t->a.seed * 1000 + t->tid * 17 + round;
       a.shard = 0; a.nshards = 1; a.only = -1;
-      a.extra = "nobig";
+      a.extra = "nobig,nosweep";
       a.maxdim = 200;
       if (!strcmp(a.family, "mul")) fam_mul(&a);
       else if (!strcmp(a.family, "elim")) fam_elim(&a);
